@@ -128,6 +128,29 @@ CHECKS["C03"] = dict(
          "runaway call. Partial: pattern.c (match/backmatch) is observed through the budget only.",
     design="4/C03", technique="Coq termination proofs (decreasing measures) on the loop models + tick-count correspondence with budget watchdog")
 
+CHECKS["C08"] = dict(
+    text="Machine-checked proof (Coq): every persistent (static/file-scope, non-const) variable inventoried from the CURRENT sources is "
+         "classified into a class that cannot carry information between calls; the table cache comparison REGENERATED from getTable "
+         "holds exactly for equal list strings; on the API state machine a call after ANY history works on the table of its list's "
+         "files plus exactly the rules accepted for that list since the last lou_free, hence equals the call in a fresh process. "
+         "Tied to the code by random histories (with and without the exact-scratch hook) in which every call's full result is compared "
+         "with the same call made first in a fresh process. The classification itself is by reading the code (modelled).",
+    design="4/C08", technique="Coq proof on the API state machine + inventory of statics regenerated from the C source + fresh-process differential histories")
+CHECKS["C14"] = dict(
+    text="Machine-checked proof (Coq) on the API state machine with the cache comparison regenerated from getTable: between lou_free calls "
+         "a list that compiles is compiled at most once, a list that does not compile is never cached, lists are isolated (also when one "
+         "name is a prefix of another), lou_free returns to the initial state and its statements reset every cache head, scratch pointer "
+         "and size. Tied to the code by all operation sequences up to length 3 (thorough 4) over 10 operations and random long ones: "
+         "files opened per step (hook), pointer identity, lou_compileString results, results vs a fresh process, LeakSanitizer.",
+    design="4/C14", technique="Coq proof on the API state machine over a cache comparison regenerated from the C source + exhaustive short operation sequences with file-open hook and LSan")
+CHECKS["C15"] = dict(
+    text="Machine-checked proof (Coq) on the API state machine: an accepted rule is appended to the list's table, lou_compileString "
+         "returns 1 iff the rule is valid and the table not yet used for translation, finalised tables reject additions without "
+         "effect, an invalid rule changes nothing and later valid additions still work, additions last until lou_free and never "
+         "touch another list. Tied to the code by sequences of up to 200 generated rules added through lou_compileString and compared, "
+         "in both translation directions, with a freshly compiled file containing base + accepted rules.",
+    design="4/C15", technique="Coq proof (append law on the API state machine) + differential comparison with the concatenated table file")
+
 PENDING = {}
 
 
